@@ -685,9 +685,13 @@ class NestedExtensionArray(ExtensionArray):
         """
         if pa.compute.is_null(value).as_py():
             return na_value
-        d = {
-            name: pd.Series(np.asarray(list_scalar.values), copy=copy) for name, list_scalar in value.items()
-        }
+        d = {}
+        for name, list_scalar in value.items():
+            values = list_scalar.values
+            if values is None:
+                # a null list holds no elements
+                values = pa.array([], type=list_scalar.type.value_type)
+            d[name] = pd.Series(np.asarray(values), copy=copy)
         return pd.DataFrame(d, copy=False)
 
     _chunked_array: pa.ChunkedArray
